@@ -10,6 +10,7 @@ mod pgn;
 mod report;
 mod scenario;
 mod srch;
+mod uci;
 mod selftest;
 mod util;
 
